@@ -74,6 +74,9 @@ func (a *Arguments) Get(argumentIndex int) reflect.Value {
 		e := a.args.Exprs[argumentIndex]
 		switch e.Type() {
 		case NodeUnderscore:
+			if a.pipedVal == nil {
+				a.Panicf("argument %d is the pipe slot marker '_' but there is no piped value", argumentIndex)
+			}
 			return *a.pipedVal
 		default:
 			return a.runtime.evalPrimaryExpressionGroup(e)
